@@ -145,6 +145,10 @@ def run_fault(case, call, trial=0):
     ajlib.set_old_grads(ts, prog, case["old"], torch.float64)
     before = snapshot(ts, prog)
     m = sum(numel(prog.shapes[o]) for o in call.get("tensors", [])) if call["entry"] == "backward" else 0
+    if call["entry"] == "mtl":
+        # the parameter groups are Iterables: the three trials hand them over as lists, generators
+        # (module.parameters()) and one-shot iterators
+        call = dict(call, param_kind=["list", "gen", "iter"][trial % 3])
     err = ajlib.impl_call(ts, call, torch.float64, impl_agg(call, m))
     after = snapshot(ts, prog)
     return err, before, after
